@@ -97,6 +97,7 @@ class Runner:
 
         self.EE = ExperimentEvaluator
         self.fc = threads.FrameClasses()
+        self.hot = threads.install_hot_instrumentation(self.fc)
         self.out = SimStream("stdout")
         self.err = SimStream("stderr")
 
@@ -188,7 +189,7 @@ class Runner:
         sched = threads.Scheduler([make_body(i, ops) for i, ops in enumerate(sc["threads"])], chooser, self.fc)
         sched.run()
         info = {"steps": sched.step, "switches": sched.switches, "hot_points": sched.hot_points,
-                "digest": "%016x" % sched.digest, "switch_digest": "%016x" % sched.switch_digest,
+                "digest": "%016x" % (sched.digest & 0xFFFFFFFFFFFFFFFF), "switch_digest": "%016x" % (sched.switch_digest & 0xFFFFFFFFFFFFFFFF),
                 "lock_acquire": sched.stats.get("lock_acquire", 0), "lock_blocked": sched.stats.get("lock_blocked", 0),
                 "lock_timeout": sched.stats.get("lock_timeout", 0), "sleep": sched.stats.get("sleep", 0)}
         res = {"result": "ok", "info": info, "decisions": [list(d) for d in sched.decisions], "hist": hist}
